@@ -242,7 +242,9 @@ var intRules = []intRule{
 	{regexp.MustCompile(`^Yun\.GetStartYear$`), 0, 10},
 	{regexp.MustCompile(`^Yun\.GetGender$`), 0, 1},
 	{regexp.MustCompile(`^EightChar\.GetSect$`), 1, 2},
-	{regexp.MustCompile(`^(DaYun|LiuNian|XiaoYun)\.GetIndex$`), 0, 9},
+	{regexp.MustCompile(`^DaYun\.GetIndex$`), 0, 9},
+	// the span before the first great fortune can hold 11 annual entries (start offset above ten years)
+	{regexp.MustCompile(`^(LiuNian|XiaoYun)\.GetIndex$`), 0, 10},
 	{regexp.MustCompile(`^LiuYue\.GetIndex$`), 0, 11},
 	{regexp.MustCompile(`^Solar\.GetSalaryRate$`), 1, 3},
 }
